@@ -49,6 +49,7 @@ pub fn units(prop: &str, tier: &str, seed: u64) -> Vec<String> {
 }
 
 pub fn scenario(prop: &str, u: &Unit) -> String {
+    crate::common::configure(u);
     match prop {
         "C01" => c01::scenario(u),
         "C12" => c12::scenario(u),
